@@ -14,6 +14,11 @@ VERIF = "/verif"
 REPO = os.environ.get("VERIF_REPO", "/repo")
 ENV = dict(os.environ, GOFLAGS="-mod=mod", GOPROXY="off", GOSUMDB="off", GOTOOLCHAIN="local", CGO_ENABLED="0")
 ENV.pop("GOWORK", None)
+# every scratch copy has its own directory, so its packages get build-cache entries of their own: a private cache,
+# removed at exit, keeps a sweep from filling the disk
+import atexit as _atexit, tempfile as _tempfile, shutil as _shutil
+ENV["GOCACHE"] = _tempfile.mkdtemp(prefix="digtool-cache.")
+_atexit.register(lambda: _shutil.rmtree(ENV["GOCACHE"], ignore_errors=True))
 
 
 def files():
